@@ -386,6 +386,15 @@ def fallback_guards(chk, F, fn, fk):
             return fields_of(lets[ln[1]], depth + 1)
         if e.get("k") in ("Paren", "DropTemps") and e.get("e"):
             return fields_of(e["e"], depth)
+        # the disjunction has been given a name: `has_date_fields(&parsed)`, a private function of this crate whose body is one
+        if e.get("k") == "Call" and e["f"].get("k") == "Path" and depth < 3 and len(e.get("args", [])) == 1:
+            import facts as _f
+            g = _f.private_helper(F, CORE, e["f"]["r"].get("path", ""))
+            if g is not None:
+                hb = F.hir_of(g)["body"]
+                while hb.get("k") == "Block" and not hb["stmts"] and hb.get("expr"):
+                    hb = hb["expr"]
+                return fields_of(hb, depth + 1)
         return None
 
     matches = [m for m in hir_walk(h["body"]) if m.get("k") == "Match" and m.get("src") == "Normal" and m["scrut"].get("k") == "Tup"
